@@ -423,7 +423,7 @@ def static_flags_part(ctx, exe, mexe, d):
     # every flag must have been seen alone with a non-default value
     # every flag must have been seen alone with every value (in particular its non-default one), both ways
     alone = {(k, str(v), bool(api)) for _, _, eff, _, api in good if len(eff) == 1 for k, v in eff.items()}
-    want = {(k, str(v), bool(api)) for f, via in specs if len(f) == 1 for k, v in f.items() for api in [via == "api"]}
+    want = {(k, str(v), bool(api)) for f, via in specs if len(f) == 1 for k, v in f.items() for api in [via != "section"]}
     if alone != want:
         ctx.violation({"kind": "correspondence-only", "what": "CTLexerBuilder rejects lexers of the static flag sweep that it accepts "
                        "on the unchanged tree", "missing": sorted(map(str, want - alone))}, no_input=True)
